@@ -159,7 +159,16 @@ func (s *Service) AttestAndScheduleAggregate(ctx context.Context, duty *attester
 		return
 	}
 
+	type aggregationKey struct {
+		slot           phase0.Slot
+		committeeIndex phase0.CommitteeIndex
+	}
+	aggregating := make(map[aggregationKey]bool)
 	for _, attestation := range attestations {
+		if aggregating[aggregationKey{slot: attestation.Data.Slot, committeeIndex: attestation.Data.Index}] {
+			// Already aggregating for this slot and committee.
+			continue
+		}
 		log := log.With().Uint64("attestation_slot", uint64(attestation.Data.Slot)).Uint64("committee_index", uint64(attestation.Data.Index)).Logger()
 		slotInfoMap, exists := subscriptionInfoMap[attestation.Data.Slot]
 		if !exists {
@@ -213,8 +222,9 @@ func (s *Service) AttestAndScheduleAggregate(ctx context.Context, duty *attester
 				continue
 			}
 			// We are set up as an aggregator for this slot and committee.  It is possible that another validator has also been
-			// assigned as an aggregator, but we're already carrying out the task so do not need to go any further.
-			return
+			// assigned as an aggregator, but we're already carrying out the task so do not need to go any further with this
+			// committee.  Other committees of the slot still need their own aggregation job.
+			aggregating[aggregationKey{slot: attestation.Data.Slot, committeeIndex: attestation.Data.Index}] = true
 		}
 	}
 }
